@@ -140,7 +140,7 @@ static void mutate(cs::Src& s, std::string& t, bool msgpack) {
   size_t n = 1 + (size_t)s.below(4);
   for (size_t i = 0; i < n; i++) {
     size_t pos = t.empty() ? 0 : (size_t)s.below(t.size());
-    switch (s.below(7)) {
+    switch (s.below(8)) {
       case 0:
         if (!t.empty()) t.erase(pos, 1);
         break;
@@ -154,6 +154,15 @@ static void mutate(cs::Src& s, std::string& t, bool msgpack) {
                                   "\xC9\xFF\xFF\xFF\xFF", "\xDA\xFF\xFF", "\xDC\xFF\xFF", "\xC5\xFF\xFF", "\xD9\xFF"};
         if (msgpack) t.insert(pos, H[s.below(9)]);
         else t.insert(pos, s.coin() ? "\\uD800" : "1e999999999999");
+        break;
+      }
+      case 7: {  // a number token around and beyond the 63-character scratch buffer
+        size_t k = 55 + (size_t)s.below(30);
+        std::string tok;
+        for (size_t j = 0; j < k; j++) tok += (char)('0' + s.below(10));
+        if (s.coin()) tok.insert((size_t)s.below(tok.size()), ".");
+        if (s.coin()) tok += "e-" + std::to_string(s.below(400));
+        t.insert(pos, msgpack ? tok : "," + tok + ",");
         break;
       }
       case 5: {  // many opening brackets
